@@ -39,6 +39,38 @@ CORPUS = [
 ]
 
 
+COMPREHENSION_PROGRAMS = [
+    # comprehensions are C04's subject; here only: the statements of a statement-producing key / value / element form are
+    # executed, in order, once per iteration (program, value, notes)
+    ("(dfor x [1 2] (do (note x) (* x 10)) x)", {10: 1, 20: 2}, [1, 2]),
+    ("(dfor x [1 2] x (do (note x) (* x 10)))", {1: 10, 2: 20}, [1, 2]),
+    ("(dfor x [1 2] (do (note x) x) (do (note (- x)) (* x 10)))", {1: 10, 2: 20}, [1, -1, 2, -2]),
+    ("(dfor x [1 2] :if (do (note 0) True) (do (note x) x) 5)", {1: 5, 2: 5}, [0, 1, 0, 2]),
+    ("(dfor x [1 2] (if (> x 1) (do (note x) x) 0) (do (setv y x) (+ y 1)))", {0: 2, 2: 3}, [2]),
+    ("(lfor x [1 2] (do (note x) (* x 10)))", [10, 20], [1, 2]),
+    ("(sfor x [1 2] (do (note x) (* x 10)))", {10, 20}, [1, 2]),
+    ("(list (gfor x [1 2] (do (note x) (* x 10))))", [10, 20], [1, 2]),
+    ("(dfor x [1 2] y [3] (do (note y) (+ x y)) (do (note x) x))", {4: 1, 5: 2}, [3, 1, 3, 2]),
+]
+
+
+def comprehension_probe(chk):
+    hy = vlib.use_repo_in_process()
+    for src, want, want_notes in COMPREHENSION_PROGRAMS:
+        for ctx in ("%s", "(do (defn f [] %s) (f))"):
+            full = ctx % src
+            notes = []
+            try:
+                got = hy.eval(hy.read_many(full), {"note": notes.append})
+            except Exception as e:
+                got = "raises %s: %s" % (type(e).__name__, str(e)[:80])
+            chk.count("comprehension-probe")
+            chk.case("K:" + full, nontrivial=True)
+            if got != want or notes != want_notes:
+                chk.fail("comprehension-statements", {"program": full}, "value %r, notes %r" % (got, notes),
+                         "value %r, notes %r" % (want, want_notes), "hy.eval(hy.read_many(src), {'note': list.append})")
+
+
 def run(chk):
     chk.trusted = cc.TRUSTED_COMPILER
     chk.assumptions = ["programs are generated over the modelled fragment plus let and a call with two arguments (log2 k a b) "
@@ -75,4 +107,5 @@ def run(chk):
                 "expression slot may hold a statement-producing form; a fault table makes up to two effect points raise one of "
                 "5 exception classes; non-trivial = distinct program of size >= 4")
     cc.differential(chk, progs)
+    comprehension_probe(chk)
     chk.extra["forms_outside_the_model"] = ["calls with several arguments (one binary call is exercised behaviourally)", "operators", "get", "cut", "let", "for", "comprehensions", "with", "fn", "return", "match"]
